@@ -220,6 +220,17 @@ def run(run):
     finally:
         run.rid_prefix = ""
 
+    # a well-formed SUCCESS answer always yields code 0: the signature parser demands nothing beyond DER well-formedness (rules of C01 under S.)
+    from . import c01
+    from sa.prov import Prov
+    run.rule("S.R5", "A signature the device returned with SUCCESS is accepted whenever it is well-formed DER: HSM2DongleSignature checks the header, markers and "
+             "lengths and nothing else (no size `sanity` conditions: minimal DER integers may be shorter than 32 bytes); rules shared with C01.")
+    run.rid_prefix = "S."
+    try:
+        c01.signature_parser(run, F, Prov(A), "R5")
+    finally:
+        run.rid_prefix = ""
+
     # ------------------------------------------------------------------ R4
     run.rule("R4", "HSM2DongleErrorResult (a status word in the device's own error range) cannot escape "
              "any command method, nor be converted into HSM2ProtocolError/Interrupt on the way; chains "
